@@ -185,6 +185,27 @@ def run(ctx):
                 combos.append(("shipped", tuple(labels), n))
                 if len(samples) < 8:
                     samples.append({"listeners": labels, "n": n, "pattern": pat, "trials": len(seq_of(run))})
+        # (3) one listener object shared by two solvers, used one after the other and interleaved
+        from ..agp_drv import SharedRecListener
+        for gi in range(4 if qk else 30):
+            grp = []
+            for j in range(2):
+                prob = problem(rng.choice([1, 2]))
+                r_, eps, limit, m = scen.rand_params(rng, prob.numberOfFloatVariables)
+                run = SolverRun(prob, r=r_, eps=eps, limit=min(limit, 30), m=m, tag="%s/shared-listener#%d" % (prob.name, j + 1), listener="none", full_snap=False)
+                run.cbs = ["before", "enditer", "stop"]
+                run.events[0]["cbs"] = run.cbs
+                grp.append(run)
+            shared = SharedRecListener(grp)
+            for run in grp:
+                run.solver.AddListener(shared)
+            if gi % 2 == 0:
+                for run in grp:
+                    drive(run, [("dgi", 2), ("solve", 0)])
+            else:
+                drive(grp[0], [("dgi", 1)]), drive(grp[1], [("dgi", 3)]), drive(grp[0], [("solve", 0)]), drive(grp[1], [("solve", 0)])
+            runs += grp
+            combos.append(("shared", ("one listener object on two solvers",), grp[0].n))
     finally:
         os.chdir(cwd)
         shutil.rmtree(tmp, ignore_errors=True)
